@@ -246,13 +246,20 @@ type workItem struct {
 // Ready sub-steps, storage-thread steps, self-addressed responses.
 func (w *World) enabledWork(r *rand.Rand) []workItem {
 	var items []workItem
+	seen := 0
 	for i, id := range w.order {
-		if i >= 24 { // a window of the oldest messages plus a few random ones
+		if w.parked(id) {
+			continue // waits on a cut link until the network heals (a long delay, not a loss)
+		}
+		if seen >= 24 { // a window of the oldest messages plus a few random ones
 			for j := 0; j < 4; j++ {
-				items = append(items, workItem{k: "deliver", a: uint64(w.order[24+r.Intn(len(w.order)-24)])})
+				if c := w.order[i+r.Intn(len(w.order)-i)]; !w.parked(c) {
+					items = append(items, workItem{k: "deliver", a: uint64(c)})
+				}
 			}
 			break
 		}
+		seen++
 		items = append(items, workItem{k: "deliver", a: uint64(id)})
 	}
 	for _, id := range w.ids {
@@ -300,6 +307,17 @@ func (w *World) enabledWork(r *rand.Rand) []workItem {
 		}
 	}
 	return items
+}
+
+// parked: about half of the messages that meet a cut link wait there instead of
+// being lost; they are delivered - late, possibly after newer traffic - once
+// the link is healed.
+func (w *World) parked(id int) bool {
+	nm := w.net[id]
+	if nm == nil || len(w.cut) == 0 || !w.cut[[2]uint64{nm.from, nm.to}] {
+		return false
+	}
+	return (uint32(id)*2654435761)>>16%100 < 50
 }
 
 func (w *World) upNodes() []*node {
@@ -402,7 +420,12 @@ func (w *World) Gen(r *rand.Rand) Action {
 			}
 			it := items[r.Intn(len(items))]
 			if it.k == "deliver" && pct(r, p.FIFOPct) {
-				it = workItem{k: "deliver", a: uint64(w.order[0])}
+				for _, id := range w.order {
+					if !w.parked(id) {
+						it = workItem{k: "deliver", a: uint64(id)}
+						break
+					}
+				}
 			}
 			if it.lag && pct(r, p.AppLagPct) && (hostile || p.AppLagPct >= 80) {
 				continue
